@@ -123,10 +123,68 @@ def window_step(w0: int, w1: int, a1: int, a2: int, ep: int, t: bool) -> bool:
     return hx.check(inputs, obs, exp, "the window is the last `size` answered ids (repeats included); the probe is rejected iff T is set and its id is in it")
 
 
+def two_conns(ea: int, eb: int, ans_a: bool, ans_b: bool, order: bool, po: int, pe: int, t: bool) -> bool:
+    """
+    pre: 0 <= ea <= 1 and 0 <= eb <= 1 and 0 <= po <= 1 and 0 <= pe <= 1
+    pre: (ans_a and ans_b) or not order
+    pre: ("c17_equal_hbh_and_e2e_on_two_connections" not in P["carve"]) or P["ha"] != P["hb"] or ea != eb or not (ans_b and (order or not ans_a))
+    post: _
+    """
+    hx.begin()
+    ha, hb = P["ha"], P["hb"]
+    ea, eb, po, pe = (hx.concretize_range(x, 0, 2) for x in (ea, eb, po, pe))
+    inputs = (ea, eb, ans_a, ans_b, order, po, pe, t)
+    try:
+        b = B.Bench(n_peers=2)
+        n, app = b.node, b.apps[0]
+        c = [b.make_ready(b.peers[0], "10.0.1.1")[0], b.make_ready(b.peers[1], "10.0.1.2")[0]]
+        origin = [B.PEER_HOSTS[0], B.PEER_HOSTS[1]]
+        win = {0: [], 1: []}
+        # two origin hosts on two connections; hop-by-hop and end-to-end ids are chosen independently by each peer
+        b.inject(c[0], B.ccr(origin[0], ha, E2E[ea], session="a"))
+        b.inject(c[1], B.ccr(origin[1], hb, E2E[eb], session="b"))
+        reqs = list(app.requests)
+        todo = [(0, reqs[0], E2E[ea])] * (1 if ans_a else 0) + [(1, reqs[1], E2E[eb])] * (1 if ans_b else 0)
+        if order:
+            todo.reverse()
+        for (o, r, e) in todo:
+            app.send_answer(app.generate_answer(r, result_code=2001))
+            win[o].append(e)
+        for x in c:
+            drain(x)
+        before = len(app.requests)
+        b.inject(c[po], B.ccr(origin[po], 0x99, E2E[pe], session="p", flags_extra=0x10 if t else 0))
+        out = B.summarize(drain(c[po]))
+        obs = (len(app.requests) - before, [(x[3], x[5]) for x in out])
+    except Exception as e:
+        return hx.fail(inputs, "raised %s: %s" % (type(e).__name__, str(e)[:80]))
+    dup = bool(t) and E2E[pe] in win[po]
+    exp = (0, [(0x99, 5012)]) if dup else (1, [])
+    return hx.check(inputs, obs, exp, "two origin hosts with independently chosen ids: a T-flagged request is rejected iff THAT origin's request with that end-to-end id was answered")
+
+
+def repro_equal_ids_two_conns():
+    """known finding: two connections hold pending requests with the same hop-by-hop AND end-to-end id; the answer to the
+    second is transmitted (and booked) on the first connection"""
+    hx.begin()
+    b = B.Bench(n_peers=2)
+    n, app = b.node, b.apps[0]
+    c = [b.make_ready(b.peers[0], "10.0.1.1")[0], b.make_ready(b.peers[1], "10.0.1.2")[0]]
+    b.inject(c[0], B.ccr(B.PEER_HOSTS[0], 1, 7, session="a"))
+    b.inject(c[1], B.ccr(B.PEER_HOSTS[1], 1, 7, session="b"))
+    app.send_answer(app.generate_answer(app.requests[1], result_code=2001))
+    on0 = [m.session_id for m in drain(c[0]) if not m.header.is_request]
+    on1 = [m.session_id for m in drain(c[1]) if not m.header.is_request]
+    return on0 == ["b"], "answer to peer2's request (1, 7) queued on peer1's connection %r, on peer2's %r" % (on0, on1)
+
+
 def specs(tier, seed, carve):
     q = tier == "quick"
     out = []
     ne = 2
+    for (ha, hb) in ((1, 1), (1, 2)):
+        out.append(dict(id="two_conns/h%d_%d" % (ha, hb), fn="two_conns", params={"ha": ha, "hb": hb}, timeout=900,
+                        bound="two origin hosts on two connections, hop-by-hop ids %d/%d, end-to-end ids from a 2-element pool each (equal ids included), each answered or pending, both answer orders, then a probe from either origin" % (ha, hb)))
     for size in (1, 2):
         for w0 in range(3):
             out.append(dict(id="window_step/size%d/w%d" % (size, w0), fn="window_step", params={"size": size, "w0": w0}, timeout=900,
